@@ -156,6 +156,24 @@ func init() {
 				bt := i.bigIntType()
 				return tuple{i.newBig(bt, x), i.newBig(bt, y)}
 			}
+		case strings.Contains(name, ").Unmarshal") && strings.Contains(name, "nistCurve["):
+			return func(fr *frame, args []value) value {
+				i := fr.i
+				bs, ok := valuesToBytes(args[1].([]value))
+				if !ok {
+					panic(unsupported("curve.Unmarshal on symbolic bytes"))
+				}
+				// byte length from the curve's parameters (receiver field `params`)
+				recv := (*args[0].(*value)).(structure)
+				params := (*recv[1].(*value)).(structure) // nistCurve{newPoint, params}
+				bits := int(i.concreteInt(params[5]))     // CurveParams{P,N,B,Gx,Gy,BitSize,Name}
+				bl := (bits + 7) / 8
+				if len(bs) != 1+2*bl || bs[0] != 4 {
+					return tuple{(*value)(nil), (*value)(nil)}
+				}
+				bt := i.bigIntType()
+				return tuple{i.newBig(bt, new(big.Int).SetBytes(bs[1:1+bl])), i.newBig(bt, new(big.Int).SetBytes(bs[1+bl:]))}
+			}
 		case strings.Contains(name, ").ScalarMult"), strings.Contains(name, ").Add"), strings.Contains(name, ").Double"):
 			return func(fr *frame, args []value) value { panic(unsupported("elliptic curve arithmetic: " + name)) }
 		}
@@ -196,3 +214,35 @@ func init() {
 }
 
 var _ = ssa.NewProgram
+
+func init() {
+	// verification side of the ideal signature scheme
+	stubs["crypto/ecdsa.VerifyASN1"] = func(fr *frame, args []value) value {
+		pub := args[0].(*value)
+		if pub == nil {
+			panic(targetPanic{"runtime error: invalid memory address or nil pointer dereference (ecdsa public key)"})
+		}
+		x := bigFromValue((*pub).(structure)[1].(*value))
+		d := new(big.Int).Sub(x, big.NewInt(1000003))
+		d.Rsh(d, 1)
+		want := append([]value{uint8('E')}, keyIDBytes(d)...)
+		want = append(want, args[1].([]value)...)
+		return fromBoolTerm(fr.i.bytesEq(want, args[2].([]value)))
+	}
+	stubs["crypto/rsa.VerifyPKCS1v15"] = func(fr *frame, args []value) value {
+		i := fr.i
+		pub := args[0].(*value)
+		if pub == nil {
+			panic(targetPanic{"runtime error: invalid memory address or nil pointer dereference (rsa public key)"})
+		}
+		n := bigFromValue((*pub).(structure)[0].(*value))
+		id := new(big.Int).Sub(n, new(big.Int).Lsh(big.NewInt(1), uint(n.BitLen()-1)))
+		want := append([]value{uint8('R')}, keyIDBytes(id)...)
+		want = append(want, uint8(i.concreteInt(args[1])))
+		want = append(want, args[2].([]value)...)
+		if i.condBool(fromBoolTerm(i.bytesEq(want, args[3].([]value)))) {
+			return iface{}
+		}
+		return i.errorFromString("crypto/rsa: verification error")
+	}
+}
